@@ -131,6 +131,12 @@ func init() {
 				"|", ">", "|+", "&a", "*a", "!t", "%p", "@a", "`b", "?", ":", "日本語 🎵", "\u00a0", "\u2028", "\u0085", "é", "\n", "\n\n", " \n", "\r\n", "\t", " ", "a\u0000b", "\u001b[0m", "\ufeffx"} {
 				cases = append(cases, Case{"cmd": "textrt", "text": t})
 			}
+			// ... and through `text conv | write`, the text sitting on the last instance as its only setting (the very end of the YAML)
+			for _, t := range []string{"the end\n\n\n", "a\n", "a\r\nb", "x\r", "first\r\nsecond\r\n", ";-) x", "a ;b\n;c", "trail  ", "tab\t", "日本\n", "a\n\n\nb", "| x", "> y", "- z\n"} {
+				for _, key := range []string{"txt", "lic", "mrk"} {
+					cases = append(cases, Case{"cmd": "texttc", "text": t, "mkey": key})
+				}
+			}
 			// a piece whose instances YAML is larger than a mebibyte goes through the pipe whole
 			cases = append(cases, Case{"cmd": "bigpipe", "n": 24000})
 			// one physical line of the instances YAML longer than any line buffer: a 70 000-byte text, a 70 000-byte comment
@@ -246,6 +252,23 @@ func init() {
 					if len(f.TrackLen) > 0 {
 						rec["eot"] = f.TrackLen[0]
 					}
+				}
+				return []Rec{rec}
+			case "texttc":
+				t, mkey := cs(k, "text"), cs(k, "mkey")
+				r1 := c.crd([]string{"text", "conv", "syllable"}, []byte("C[1] G[1]{"+mkey+"="+t+"}"))
+				rec := Rec{"kind": "texttc", "sub": fmt.Sprintf("%s %q", mkey, t), "text": bytesOf([]byte(t)), "mkey": mkey, "convOk": r1.Exit == 0 && len(r1.Stdout) > 0, "writeOk": false, "payloads": [][]int{}}
+				if rec["convOk"] == true {
+					r2 := c.crd([]string{"write"}, r1.Stdout)
+					f := smf.Parse(r2.Stdout)
+					rec["writeOk"] = r2.Exit == 0 && f.Err == "" && len(r2.Stdout) > 0
+					ps := [][]int{}
+					for _, e := range f.Events {
+						if e.Kind == smf.KindMeta && (e.A == 1 || e.A == 5 || e.A == 6) {
+							ps = append(ps, append([]int{e.A}, e.Data...))
+						}
+					}
+					rec["payloads"] = ps
 				}
 				return []Rec{rec}
 			case "textrt":
